@@ -236,6 +236,10 @@ pub broadcast axiom fn axiom_cidx_boff(s: Seq<char>, i: int)
 pub broadcast axiom fn axiom_slice_chars(s: &str, a: int, b: int, r: &str)
     requires #[trigger] is_slice(s, a, b, r), slice_ok(s, a, b)
     ensures r@ == s@.subrange(cidx(s@, a), cidx(s@, b)), cidx(s@, a) <= cidx(s@, b);
+/// a char boundary of a suffix slice is a char boundary of the whole string (a boundary is a property of one byte)
+pub broadcast axiom fn axiom_boundary_suffix(s: &str, a: int, t: &str, i: int)
+    requires #[trigger] is_slice(s, a, s.spec_bytes().len() as int, t), slice_ok(s, a, s.spec_bytes().len() as int), 0 <= i <= t.spec_bytes().len()
+    ensures #[trigger] vstd::utf8::is_char_boundary(t.spec_bytes(), i) == vstd::utf8::is_char_boundary(s.spec_bytes(), a + i), t.spec_bytes().len() == s.spec_bytes().len() - a;
 pub broadcast group group_utf8 { axiom_boff_boundary, axiom_boff_ends, axiom_boff_mono, axiom_cidx, axiom_cidx_boff, axiom_slice_chars }
 
 // ---------------------------------------------------------------- str searching / trimming (std::str docs)
@@ -462,6 +466,20 @@ impl VxAsStr for str { open spec fn sview(&self) -> Seq<char> { self@ } #[verifi
 #[verifier::external_body] pub fn cat6(p0: &str, p1: &str, p2: &str, p3: &str, p4: &str, p5: &str) -> (r: String) ensures r@ == p0@ + p1@ + p2@ + p3@ + p4@ + p5@ { [p0, p1, p2, p3, p4, p5].concat() }
 #[verifier::external_body] pub fn cat7(p0: &str, p1: &str, p2: &str, p3: &str, p4: &str, p5: &str, p6: &str) -> (r: String) ensures r@ == p0@ + p1@ + p2@ + p3@ + p4@ + p5@ + p6@ { [p0, p1, p2, p3, p4, p5, p6].concat() }
 #[verifier::external_body] pub fn cat8(p0: &str, p1: &str, p2: &str, p3: &str, p4: &str, p5: &str, p6: &str, p7: &str) -> (r: String) ensures r@ == p0@ + p1@ + p2@ + p3@ + p4@ + p5@ + p6@ + p7@ { [p0, p1, p2, p3, p4, p5, p6, p7].concat() }
+
+// ---------------------------------------------------------------- HashSet<String> as a set of char sequences
+pub trait VxStrSet {
+    spec fn keys(&self) -> Set<Seq<char>>;
+    fn vx_contains(&self, k: &str) -> (r: bool) ensures r == self.keys().contains(k@);
+    fn vx_insert(&mut self, k: String) -> (r: bool) ensures final(self).keys() == old(self).keys().insert(k@), r == !old(self).keys().contains(k@);
+    fn vx_remove(&mut self, k: &str) -> (r: bool) ensures final(self).keys() == old(self).keys().remove(k@), r == old(self).keys().contains(k@);
+}
+impl VxStrSet for std::collections::HashSet<String> {
+    open spec fn keys(&self) -> Set<Seq<char>> { self@.map(|s: String| s@) }
+    #[verifier::external_body] fn vx_contains(&self, k: &str) -> (r: bool) { self.contains(k) }
+    #[verifier::external_body] fn vx_insert(&mut self, k: String) -> (r: bool) { self.insert(k) }
+    #[verifier::external_body] fn vx_remove(&mut self, k: &str) -> (r: bool) { self.remove(k) }
+}
 
 // ---------------------------------------------------------------- Vec idioms
 pub trait VxVec<T> {
